@@ -231,8 +231,41 @@ def mutate(rng: random.Random, data: bytes) -> bytes:
 def hostile(rng: random.Random) -> bytes:
     """Adversarial compression graphs up to the datagram limit."""
     kind = rng.choice(['chain', 'chain', 'cycle', 'self', 'forward', 'deepchain', 'labels', 'rdata-pointer', 'manyq', 'longrd', 'longrd',
-                       'longptr', 'longptr'])
+                       'longptr', 'longptr', 'nsecmap', 'nsecmap'])
     hdr = bytearray([0, 0, 0x84, 0, 0, 0, 0, 1, 0, 0, 0, 0])
+    if kind == 'nsecmap':
+        # the type bitmap of an NSEC record: window blocks that are empty, repeated, out of order, longer than 32 octets, or that
+        # run past the end of the rdata (a block nobody advances over is a loop that never ends)
+        owner = b'\x04host\x05local\x00'
+        blocks = bytearray()
+        for _ in range(rng.choice([1, 2, 3, 6])):
+            form = rng.choice(['empty', 'empty', 'ok', 'ok', 'long', 'overrun', 'dupwin'])
+            win = rng.choice([0, 0, 1, 255])
+            if form == 'empty':
+                blocks += bytes([win, 0])
+            elif form == 'ok':
+                n = rng.choice([1, 4, 32])
+                blocks += bytes([win, n]) + rng.randbytes(n)
+            elif form == 'long':
+                n = rng.choice([33, 64, 255])
+                blocks += bytes([win, n]) + rng.randbytes(n)
+            elif form == 'overrun':
+                blocks += bytes([win, rng.choice([5, 32, 200])]) + rng.randbytes(rng.choice([0, 1, 3]))
+            else:
+                blocks += bytes([0, 1, 0x40, 0, 1, 0x40])
+        nxt = rng.choice([b'\xc0\x0c', owner, b'\x00'])
+        rd = nxt + bytes(blocks)
+        if rng.random() < 0.2:
+            rd = rd[:rng.randint(0, len(rd))]
+        rec = owner + bytes([0, 47, 0x80, 1, 0, 0, 0, 120, len(rd) >> 8, len(rd) & 255]) + rd
+        tail = b''
+        if rng.random() < 0.5:
+            hdr[7] = 2
+            tail = b'\xc0\x0c' + bytes([0, 1, 0, 1, 0, 0, 0, 120, 0, 4, 10, 0, 0, 1])
+        if rng.random() < 0.3:
+            hdr[5] = 1          # with a question: the records are read lazily by answers()
+            return bytes(hdr) + owner + bytes([0, 47, 0, 1]) + rec.replace(owner, b'\xc0\x0c', 1) + tail
+        return bytes(hdr) + rec + tail
     if kind == 'longptr':
         # names that are within the limit where they are spelled but end in a pointer to another name, so that what they expand
         # to lies around / beyond 253 characters: in a question, an owner name, and the name inside rdata
